@@ -268,8 +268,14 @@ def s_constant_rules(draw, horizon_si, max_rules=3, values=None):
             continue
         rules.append({'rule': 'constant', 'start': qty('Time', a, draw(s_unit('Time'))),
                       'duration': qty('TimeInterval', dur, draw(s_unit('TimeInterval'))),
-                      'value': draw(vals)})
+                      'value': _duty(draw(vals))})
     return rules
+
+
+def _duty(v):
+    """duty cycles below 1e-6 in magnitude are snapped to 0 (D * w0 underflows for subnormal D: outside any
+    meaningful use, see C08)"""
+    return 0.0 if isinstance(v, float) and 0 < abs(v) < 1e-6 else v
 
 
 def horizon(case):
